@@ -122,6 +122,7 @@ def make_arrays(spec, data, suffix=''):
     for i, a in enumerate(data['arr']):
         n = a['nall']
         pa = get_particle_array(name='a%d' % i, x=np.zeros(n))
+        pa.add_property('ik', type='int')
         for nm, (ty, st) in sorted(spec['slots'].items()):
             pa.add_property(nm, type=P.PTYPE[ty], stride=st)
         for nm, st in sorted(spec['rats'].items()):
@@ -205,7 +206,7 @@ def build_groups(spec, mod):
             at = spec['body'][str(e['eid'])]['attrs']
             o = getattr(mod, 'Pq%d' % e['eid'])(
                 'a%d' % e['dest'], ['a%d' % s for s in e['srcs']],
-                ca=float(at['ca']), ci=int(at['ci']),
+                ca=float(at['ca']), ci=int(at['ci']), cj=int(at.get('cj', 1)),
                 cv=[float(v) for v in at['cv']])
             eq_ids[id(o)] = e['eid']
             eqs.append(o)
@@ -251,7 +252,6 @@ def run_probe(job):
     static = P.static_part(spec)
     symtab = symbol_table()
     runs = job['runs']
-    pas_c = make_arrays(spec, runs[0])
     pas_r = make_arrays(spec, runs[0])
     compiled = {}
     out = []
@@ -262,7 +262,8 @@ def run_probe(job):
             k = ProbeKernel(dim=key[0], ka=key[1])
             reset_group_counter()
             groups, _, _ = build_groups(spec, mod)
-            ae = AccelerationEval(pas_c, groups, k)
+            pas0 = make_arrays(spec, runs[0])
+            ae = AccelerationEval(pas0, groups, k)
             SPHCompiler(ae, None).compile()
             order = []
             for mg in ae.mega_groups:
@@ -277,14 +278,43 @@ def run_probe(job):
                                            if a in symtab)
                         order.append(dict(req=sorted(req),
                                           order=list(eg.precomputed.keys())))
-            compiled[key] = (ae, k, order)
-        ae, k, order = compiled[key]
-        # compiled
-        load_data(pas_c, spec, r)
+            compiled[key] = [ae, k, order, pas0]
+        ae, k, order, pas_c = compiled[key]
+        # One compiled evaluator serves several data sets through both
+        # documented routes: the arrays it is bound to are changed in place
+        # (even runs), or fresh ParticleArray objects are bound with
+        # update_particle_arrays (odd runs; the SPHEvaluator / Interpolator
+        # route).  After a rebind the replaced arrays must stay untouched.
+        route = 'rebind' if r['rid'] % 2 else 'inplace'
+        old = None
+        if route == 'rebind':
+            old = pas_c
+            pas_c = make_arrays(spec, r)
+            load_data(pas_c, spec, r)
+            ae.update_particle_arrays(pas_c)
+            compiled[key][3] = pas_c
+            old_before = [np.array(pa.get_carray(nm).get_npy_array(),
+                                   dtype=float)
+                          for pa in old
+                          for nm in sorted(list(pa.properties) +
+                                           list(pa.constants))]
+        else:
+            load_data(pas_c, spec, r)
         nn = LinkedListNNPS(dim=r['dim'], particles=pas_c,
                             radius_scale=k.radius_scale)
         ae.set_nnps(nn)
         ae.compute(float(r['t']), float(r['dt']))
+        oldtouched = 0
+        if old is not None:
+            old_after = [np.array(pa.get_carray(nm).get_npy_array(),
+                                  dtype=float)
+                         for pa in old
+                         for nm in sorted(list(pa.properties) +
+                                          list(pa.constants))]
+            oldtouched = sum(
+                int(np.sum(~((a == b) | (np.isnan(a) & np.isnan(b)))))
+                if a.shape == b.shape else int(max(a.size, b.size))
+                for a, b in zip(old_before, old_after))
         impl, raw_c = read_state(pas_c, spec, r)
         # reference executor, fresh equation objects, second copy of the data
         load_data(pas_r, spec, r)
@@ -300,7 +330,8 @@ def run_probe(job):
                    jid=job['jid'], dim=r['dim'], t=r['t'], dt=r['dt'],
                    kern=r['kern'], env=r['env'], arr=r['arr'], impl=impl,
                    ref=ref, reflog=rx.events(), symtab=symtab,
-                   symorder=order, ratbits=ratbits)
+                   symorder=order, ratbits=ratbits, route=route,
+                   oldtouched=oldtouched)
         rec.update(static)
         out.append(rec)
     return out
